@@ -6,12 +6,15 @@ import (
 	"errors"
 	"fmt"
 	"net"
+	"net/http"
+	"net/http/httptest"
 	"net/netip"
 	"net/url"
 	"os"
 	"path/filepath"
 	"sort"
 	"strconv"
+	"strings"
 	"sync"
 	"sync/atomic"
 	"testing"
@@ -110,7 +113,7 @@ func (nullFetcher) GetIP(ctx context.Context) (net.IP, error) { return nil, erro
 // ---- kind 8: RunTraceroute with a parameter set ------------------------------------------
 
 type parCase struct {
-	proto, method string
+	proto, method  string
 	minTTL, maxTTL int
 	port           int
 	v6             bool
@@ -319,6 +322,69 @@ func runQueryCase(port, maxTTL, proto, method string, hasPort, hasTTL, hasProto,
 	return in, L(sxInt(0), sxInt(int64(protoCode(p.Protocol))), sxInt(int64(p.MinTTL)), sxInt(int64(p.MaxTTL)), sxInt(int64(p.Port)), sxInt(int64(methodCode(string(p.TCPMethod)))))
 }
 
+// ---- kind 27: an HTTP request end to end: query -> handler -> runs -> response document -----------------
+
+// runHTTPRequestCase sends one GET /traceroute through the real handler of a Server around a Traceroute object; the per-run
+// seam records what the runs were started with and answers with a path whose first hop is private, so the response shows
+// whether the skip-private-hops flag took effect.
+func runHTTPRequestCase(t *testing.T, proto, method string, q, e2e, timeoutMs, maxTTL, port int, skip bool) (sx, sx) {
+	var out sx
+	synctest.Test(t, func(t *testing.T) {
+		var mu sync.Mutex
+		nReg, nE2e := 0, 0
+		var seen []int64
+		restore := traceroute.VerifSetRunOnce(func(ctx context.Context, p traceroute.TracerouteParams, dport int) (*result.TracerouteRun, error) {
+			time.Sleep(time.Millisecond)
+			mu.Lock()
+			if p.MinTTL == p.MaxTTL {
+				nE2e++
+			} else {
+				nReg++
+				seen = []int64{int64(p.Timeout), int64(protoCode(p.Protocol)), int64(methodCode(string(p.TCPMethod))), int64(p.MaxTTL), int64(dport), b2i(p.SkipPrivateHops), int64(p.MinTTL), int64(p.Delay)}
+			}
+			mu.Unlock()
+			return &result.TracerouteRun{Source: result.TracerouteSource{IPAddress: net.IPv4(192, 0, 2, 1), Port: 40000}, Destination: result.TracerouteDestination{IPAddress: net.IPv4(8, 8, 8, 8), Port: uint16(dport)},
+				Hops: []*result.TracerouteHop{{TTL: 1, IPAddress: net.IPv4(10, 11, 12, 13), RTT: 0.25}, {TTL: 2, IPAddress: net.IPv4(8, 8, 8, 8), RTT: 0.5, IsDest: true}}}, nil
+		})
+		defer restore()
+		srv := server.VerifNewServer(traceroute.VerifNewTraceroute(nullFetcher{}))
+		qs := url.Values{}
+		qs.Set("target", "8.8.8.8")
+		qs.Set("protocol", proto)
+		qs.Set("tcp-method", method)
+		qs.Set("traceroute-queries", strconv.Itoa(q))
+		qs.Set("e2e-queries", strconv.Itoa(e2e))
+		qs.Set("timeout", strconv.Itoa(timeoutMs))
+		qs.Set("max-ttl", strconv.Itoa(maxTTL))
+		qs.Set("port", strconv.Itoa(port))
+		qs.Set("skip-private-hops", strconv.FormatBool(skip))
+		rec := httptest.NewRecorder()
+		req := httptest.NewRequest(http.MethodGet, "/traceroute?"+qs.Encode(), nil)
+		status := 0
+		func() {
+			defer func() {
+				if r := recover(); r != nil {
+					status = 2
+				}
+			}()
+			srv.TracerouteHandler(rec, req)
+		}()
+		synctest.Wait()
+		if status == 0 && rec.Code != http.StatusOK {
+			status = 1
+		}
+		leak := strings.Contains(rec.Body.String(), "10.11.12.13")
+		mu.Lock()
+		ss := sxList{}
+		for _, v := range seen {
+			ss = append(ss, sxInt(v))
+		}
+		out = L(sxInt(int64(status)), sxInt(int64(nReg)), sxInt(int64(nE2e)), ss, sxBool(leak))
+		mu.Unlock()
+	})
+	return L(sxInt(27), sxInt(int64(protoCode(proto))), sxInt(int64(methodCode(method))), sxInt(int64(q)), sxInt(int64(e2e)), sxInt(int64(timeoutMs)), sxInt(int64(maxTTL)), sxInt(int64(port)), sxBool(skip)), out
+}
+
 // ---- kind 25: command-line flags reach the runs ------------------------------------------------------
 
 // runCLIFlagsCase runs the real command with every flag given explicitly and records, at the per-run seam, how many
@@ -437,6 +503,16 @@ func runQueryTargetCase(target string, wantAddr []byte, explicitPort int, port s
 	dflt := p.Port
 	if dflt == 0 {
 		dflt = 33434
+	}
+	// only address literals are resolved here (a name would send the library's parser to the resolver, which this sandbox
+	// does not have): a handler that hands on something that is no longer an address literal has changed the endpoint
+	lit := p.Hostname
+	if h, _, err := net.SplitHostPort(lit); err == nil {
+		lit = h
+	}
+	lit = strings.TrimSuffix(strings.TrimPrefix(lit, "["), "]")
+	if _, err := netip.ParseAddr(lit); err != nil {
+		return in, L(sxInt(0), sxInt(1), sxBytes(nil), sxInt(0))
 	}
 	ap, perr := traceroute.VerifParseTarget(p.Hostname, dflt, len(wantAddr) == 16)
 	if perr != nil {
@@ -572,8 +648,8 @@ func runFallbackCase(r *rng) (sx, sx) {
 // ---- kind 12: real TCP runs against a loopback target -------------------------------------------------
 
 const (
-	capSack = iota // listening, SYN-ACK with SACK-permitted
-	capSackTS      // ... and timestamps
+	capSack   = iota // listening, SYN-ACK with SACK-permitted
+	capSackTS        // ... and timestamps
 	capNoSackPermitted
 	capAckWithoutSack // SACK-permitted in the handshake, then acknowledgements without SACK blocks
 	capClosed         // nothing listens on the port
@@ -620,7 +696,7 @@ func runTCPCase(t *testing.T, method string, capab int) (sx, sx) {
 	}
 	var out sx
 	var outHead []sx
-	tupleMismatch, endpointMismatch := 0, 0
+	tupleMismatch, endpointMismatch, drained := 0, 0, 0
 	// a real-time limit on waiting for the run's TCP connection (made outside the bubble: a timer of the bubble's virtual
 	// clock could not fire while a goroutine waits on the accept channel)
 	giveUp := make(chan struct{})
@@ -638,7 +714,11 @@ func runTCPCase(t *testing.T, method string, capab int) (sx, sx) {
 			if nHandles != 1 || method == "syn" {
 				return
 			}
-			h.src.onFirstRead = func() {
+			// the target's SYN-ACK is captured while connect() is still in progress, so it is already in the socket by the
+			// time the run touches its handle again: it is put there at the first handle operation after the dial - the
+			// first Read, or an earlier second SetPacketFilter (whose drain then discards it, as the real source would)
+			h.src.drainOnFilter = true
+			arrive := func() {
 				once.Do(func() {
 					if capab == capClosed {
 						return
@@ -670,6 +750,12 @@ func runTCPCase(t *testing.T, method string, capab int) (sx, sx) {
 						}
 					}
 				})
+			}
+			h.src.onFirstRead = arrive
+			h.src.onFilter = func(n int) {
+				if n >= 2 {
+					arrive()
+				}
 			}
 		}
 		switch capab {
@@ -743,6 +829,7 @@ func runTCPCase(t *testing.T, method string, capab int) (sx, sx) {
 			// the 4-tuple filter a handle was given against the flow of the TCP packets written through that same handle
 			h.src.mu.Lock()
 			specs := append([]packets.PacketFilterSpec(nil), h.src.filterSpecs...)
+			drained += h.src.drained
 			h.src.mu.Unlock()
 			for _, sp := range specs {
 				if sp.FilterType != packets.FilterTypeTCP {
@@ -764,7 +851,7 @@ func runTCPCase(t *testing.T, method string, capab int) (sx, sx) {
 			status = 1
 		}
 		outHead = []sx{sxInt(int64(status)), sxBool(err != nil && errors.As(err, &ns)), sxBool(err != nil && errors.Is(err, injectedCause)),
-			sxInt(int64(syn)), sxInt(int64(ackpsh)), sxInt(int64(accepted.Load())), closes, sxInt(int64(tupleMismatch)), sxInt(int64(endpointMismatch))}
+			sxInt(int64(syn)), sxInt(int64(ackpsh)), sxInt(int64(accepted.Load())), closes, sxInt(int64(tupleMismatch)), sxInt(int64(endpointMismatch)), sxInt(int64(drained))}
 	})
 	if ln != nil {
 		ln.Close()
@@ -898,6 +985,18 @@ func labPar(e labEnv) {
 			r.bool(), r.bool(), r.bool(), r.bool())
 		w.put(in, out)
 		tags["query"]++
+	}
+	// kind 27
+	for i := 0; i < 40*reps25(e); i++ {
+		proto := pick(r, []string{"udp", "tcp", "icmp"})
+		method := "syn"
+		if proto == "tcp" {
+			method = pick(r, []string{"syn", "sack", "prefer_sack"})
+		}
+		in, out := runHTTPRequestCase(e.t, proto, method, pick(r, []int{1, 2, 3}), pick(r, []int{0, 1, 3}), pick(r, []int{1, 100, 450, 3000}), pick(r, []int{2, 5, 30, 255}),
+			pick(r, []int{1, 80, 33434, 65535}), r.bool())
+		w.put(in, out)
+		tags["http_request"]++
 	}
 	// kind 25
 	for i := 0; i < 40*reps25(e); i++ {
